@@ -2,8 +2,9 @@
 
 Case kinds (first element is the kind code, see coq/Run/C20_run.v):
   (0, cwd, [relative file, ...], all_expr)   "res": a real scratch tree with those files is created under
-        $VERIF_ROOT/.work/, the process changes into it, File.resolve_filenames(all_expr) and
-        Context().textFile(all_expr).collect() are run.  Every file's content is its own absolute path, so
+        $VERIF_ROOT/.work/, the process changes into it, File.resolve_filenames(all_expr),
+        Context().textFile(all_expr).collect() and the file names in the order wholeTextFiles / binaryFiles
+        deliver them are observed.  Every file's content is its own absolute path, so
         the collected lines show which file was read at which position.  The tree lives at a symbolic root
         (ROOT_SYM) inside the case; the real scratch directory is substituted on the way in and mapped back
         on the way out, so a case does not depend on the machine it was generated on.
@@ -176,9 +177,17 @@ def impl_res(p):
             r2 = [sym(x) for x in pysparkling.Context().textFile(real).collect()]
         except Exception as e:  # pylint: disable=broad-except
             r2 = Err(type(e).__name__)
+        try:
+            r3 = [sym(n) for n, _ in pysparkling.Context().wholeTextFiles(real).collect()]
+        except Exception as e:  # pylint: disable=broad-except
+            r3 = Err(type(e).__name__)
+        try:
+            r4 = [sym(n) for n, _ in pysparkling.Context().binaryFiles(real).collect()]
+        except Exception as e:  # pylint: disable=broad-except
+            r4 = Err(type(e).__name__)
     finally:
         os.chdir(old)
-    return (r1, r2)
+    return (r1, r2, r3, r4)
 
 
 # ------------------------------------------------------------------ oracle (independent of the Coq model)
@@ -281,7 +290,7 @@ def oracle(p, r):
     _, _, files, expr = p
     if isinstance(r, Err):
         return None if r.name == 'UnsafePattern' else ('impl:' + r.name, 'harness error')
-    names, coll = r
+    names, coll, whole, binary = r
     items = items_of(expr)
     if not all(in_scope(it) for it in items):
         return None
@@ -316,6 +325,13 @@ def oracle(p, r):
         return ('textFile:files-differ', f'textFile({expr!r}) read {coll!r}, resolved {want!r}')
     if coll != want:
         return ('textFile:order', f'textFile({expr!r}) read {coll!r}, sorted path order is {want!r}')
+    for reader, got_names in (('wholeTextFiles', whole), ('binaryFiles', binary)):
+        if isinstance(got_names, Err):
+            return (f'{reader}:raises:' + got_names.name, f'{reader}({expr!r}).collect() raised {got_names.name}')
+        if sorted(got_names) != sorted(names):
+            return (f'{reader}:files-differ', f'{reader}({expr!r}) read {got_names!r}, resolved {names!r}')
+        if got_names != sorted(names):
+            return (f'{reader}:order', f'{reader}({expr!r}) read {got_names!r}, sorted path order is {sorted(names)!r}')
     return None
 
 
@@ -496,7 +512,7 @@ def generate(rng, tier):
             cases.append((RES, ROOT_SYM, DOC_TREE, styled(rng, q, st) if st else q))
     cases += tree_cases(rng, DOC_TREE, True, 40, 40)
     # random trees
-    for _ in range(10 if quick else 160):
+    for _ in range(10 if quick else 100):
         files = gen_tree(rng)
         if not files:
             continue
